@@ -108,8 +108,12 @@ func (p *Program) generate(only string) []*Obligation {
 				// the generator's main ranges over a map: not under contract, observed by the bounded run only
 				continue
 			}
+			tags := []string{"C14"}
+			if f.fn.Pkg == p.Tool {
+				tags = []string{"C17"}
+			}
 			obls = append(obls, &Obligation{Name: n + "/contract/missing", Fn: n, Kind: "contract", Failed: true,
-				Reason: "function has no contract", Expect: "unsat", Tags: []string{"C14"}})
+				Reason: "function has no contract", Expect: "unsat", Tags: tags})
 			continue
 		}
 		ex := p.newExec(f.fn, fc)
